@@ -294,6 +294,9 @@ def _write_files(root: Path, files: Dict[str, str]) -> None:
         path = root.joinpath(rel)
         path.parent.mkdir(parents=True, exist_ok=True)
         data = files[rel]
+        if isinstance(data, dict) and "hex" in data:
+            path.write_bytes(bytes.fromhex(data["hex"]))   # a file that is not text
+            continue
         with open(path, "w", encoding="utf-8", newline="") as f:
             f.write(data)
 
@@ -2321,6 +2324,10 @@ def gen_project_case(rng) -> Dict[str, Any]:
     if rng.random() < 0.4:
         project["code"].append("/code/sample.js")
         files["source/code/sample.js"] = "// start-marker\nfunction f() {\n    return 1;\n}\n// end-marker\n  // start-marker again\n"
+    if rng.random() < 0.25:
+        # a code file that is not UTF-8 (latin-1 comment, stray bytes): whatever the page says about it has to serialise
+        project["code"].append("/code/legacy.py")
+        files["source/code/legacy.py"] = {"hex": (b"# caf\xe9 start-marker\nx = 1\n# end-marker \xff\xfe\n").hex()}
     if rng.random() < 0.15:
         project["openapi"].append("/openapi/spec.yaml")
         files["source/openapi/spec.yaml"] = "openapi: 3.0.0\ninfo:\n  title: T\n  version: '1'\npaths: {}\n"
